@@ -160,7 +160,17 @@ func TestVerifC07_ProcFilter(t *testing.T) {
 		if len(matched) == 0 {
 			wantCode = 1
 		}
-		got, code := runFilterProc(t, args, input.Bytes(), nil)
+		// the input arrives at once or in up to four instalments cut at any byte (in the middle of
+		// records too): what is printed does not depend on that
+		var pieces [][]byte
+		rest := append([]byte{}, input.Bytes()...)
+		for k := rapid.SampledFrom([]int{0, 0, 1, 2, 3}).Draw(t, "cuts"); k > 0 && len(rest) > 1; k-- {
+			at := rapid.IntRange(1, len(rest)-1).Draw(t, "cutAt")
+			pieces = append(pieces, rest[:at])
+			rest = rest[at:]
+		}
+		pieces = append(pieces, rest)
+		got, code := runFilterProcFrom(t, args, &instalments{pieces: pieces, pause: 4 * time.Millisecond}, nil)
 		nopts := 0
 		for _, b := range []bool{read0, print0, ansi, printQuery, withNth != ""} {
 			if b {
@@ -168,7 +178,7 @@ func TestVerifC07_ProcFilter(t *testing.T) {
 			}
 		}
 		nt := (transformed || nopts >= 2) && len(matched) > 0
-		vstat.Case("C07/proc-filter", fmt.Sprintf("%q|%q", args, input.String()), nt, fmt.Sprintf("read0=%v", read0), fmt.Sprintf("print0=%v", print0), fmt.Sprintf("ansi=%v", ansi), "withNth="+withNth, "mode="+mode)
+		vstat.Case("C07/proc-filter", fmt.Sprintf("%q|%q", args, input.String()), nt, fmt.Sprintf("read0=%v", read0), fmt.Sprintf("print0=%v", print0), fmt.Sprintf("ansi=%v", ansi), "withNth="+withNth, "mode="+mode, fmt.Sprintf("instalments=%d", len(pieces)))
 		if nt && vstat.WantSample("C07/proc-filter") {
 			vstat.Sample("C07/proc-filter", map[string]interface{}{"args": args, "stdin": input.String(), "stdout": string(got), "status": code})
 		}
